@@ -50,7 +50,10 @@ func (p Precompile) DepositOrWithdraw(
 	}
 
 	// call assets keeper to perform the deposit or withdraw action
-	err = p.assetsKeeper.PerformDepositOrWithdraw(ctx, depositWithdrawParams)
+	// the ledger update and the NST validator list update below must take effect together:
+	// a failure is reported to the caller as `false` without reverting the transaction.
+	cachedCtx, writeFunc := ctx.CacheContext()
+	err = p.assetsKeeper.PerformDepositOrWithdraw(cachedCtx, depositWithdrawParams)
 	if err != nil {
 		return nil, err
 	}
@@ -64,7 +67,7 @@ func (p Precompile) DepositOrWithdraw(
 		}
 		_, assetID := assetstypes.GetStakerIDAndAssetID(depositWithdrawParams.ClientChainLzID,
 			depositWithdrawParams.StakerAddress, depositWithdrawParams.AssetsAddress)
-		err = p.assetsKeeper.UpdateNSTValidatorListForStaker(ctx, assetID,
+		err = p.assetsKeeper.UpdateNSTValidatorListForStaker(cachedCtx, assetID,
 			hexutil.Encode(depositWithdrawParams.StakerAddress),
 			hexutil.Encode(depositWithdrawParams.ValidatorPubkey),
 			opAmount)
@@ -72,6 +75,7 @@ func (p Precompile) DepositOrWithdraw(
 			return nil, err
 		}
 	}
+	writeFunc()
 
 	// get the latest asset state of staker to return.
 	stakerID, assetID := assetstypes.GetStakerIDAndAssetID(depositWithdrawParams.ClientChainLzID, depositWithdrawParams.StakerAddress, depositWithdrawParams.AssetsAddress)
